@@ -183,6 +183,55 @@ class Corr:
         return s
 
 
+class MultiCorr:
+    """several correspondences (each with its own driver) reported as one"""
+
+    def __init__(self, parts):
+        self.parts = list(parts)
+
+    def run(self, max_samples=3):
+        for p in self.parts:
+            p.run(max_samples)
+
+    items = property(lambda self: [i for p in self.parts for i in p.items])
+    disagreements = property(lambda self: [d for p in self.parts for d in p.disagreements])
+    model_errors = property(lambda self: [d for p in self.parts for d in p.model_errors])
+    samples = property(lambda self: [d for p in self.parts for d in p.samples])
+    distinct = property(lambda self: set().union(*[p.distinct for p in self.parts]) if self.parts else set())
+
+    @property
+    def by_slice(self):
+        c = Counter()
+        for p in self.parts:
+            c.update(p.by_slice)
+        return c
+
+    @property
+    def dist(self):
+        c = Counter()
+        for p in self.parts:
+            c.update(p.dist)
+        return c
+
+    @property
+    def ok(self):
+        return all(p.ok for p in self.parts)
+
+    def broken_slices(self):
+        return [s for p in self.parts for s in p.broken_slices()]
+
+
+class SubCtx:
+    """a view of a check context with the case counts scaled down (to reuse another property's correspondence as a slice)"""
+
+    def __init__(self, ctx, scale):
+        self._ctx, self._scale = ctx, scale
+        self.np, self.rng, self.seed, self.tier, self.thorough, self.prop = ctx.np, ctx.rng, ctx.seed, ctx.tier, ctx.thorough, ctx.prop
+
+    def n(self, quick, thorough):
+        return max(1, int(self._ctx.n(quick, thorough) * self._scale))
+
+
 # ---------------------------------------------------------------------------------------------
 # Lean side: build, audit
 
